@@ -35,11 +35,38 @@ class C02Oracle(Oracle):
     def pre(self, w, ev):
         if ev[0] == "instance.reference=":
             return _by_position(w[ev[1][0]])
+        if ev[0] == "clone":
+            return ("clone", len(w.pool))
         return None
 
     def step(self, w, ev, outcome, token):
         if token is None or outcome[0] != "ok":
             return []
+        if isinstance(token, tuple) and token[0] == "clone":
+            # the copy's instances carry their connections on the pins that correspond to the original's
+            src = w[ev[1][0]]
+            cp = next((w[i] for i in range(token[1], len(w.pool)) if type(w[i]) is type(src)), None)
+            bad = []
+            if cp is not None and w.kind[w.idx(src)] in "NL":
+                def shape(root):
+                    out = {}
+                    libs = root.libraries if w.kind[w.idx(src)] == "N" else [root]
+                    for l in libs:
+                        for d in l.definitions:
+                            for x in d.children:
+                                if x.reference is None:
+                                    continue
+                                for i, port in enumerate(x.reference.ports):
+                                    for j, pin in enumerate(port.pins):
+                                        op = x.pins.get(pin)
+                                        wr = op.wire if op is not None else None
+                                        out[(l.name, d.name, x.name, i, j)] = None if wr is None else (wr.cable.name, list(wr.cable.wires).index(wr))
+                    return out
+                a, b = shape(src), shape(cp)
+                if a != b:
+                    k = next(k for k in sorted(set(a) | set(b), key=repr) if a.get(k) != b.get(k))
+                    bad.append(("clone-moved-connection", "instance pin %s: original on %s, copy on %s" % (k, a.get(k), b.get(k))))
+            return bad
         x = w[ev[1][0]]
         now = _by_position(x)
         bad = []
